@@ -156,6 +156,9 @@ class LevelPlanner:
                     # a hard failure (crash) stops the script: later targets of a chain are re-queued by the caller
                 else:
                     self.verified.add(ei)
+        # a target behind a hard failure in a chain was not executed in that script: the caller re-runs the remainder as a
+        # new pending script, and a failure there must win over the "no failure recorded" of the original script
+        self.verified -= self.bad
         # extend the tree with verified moves
         for u in self.frontier:
             for i in self.g.out[u]:
